@@ -41,6 +41,7 @@ type input struct {
 	WindowMs        int         `json:"window_ms,omitempty"` // max-request-elapsed-time; -1 = retries disabled
 	ClientTimeoutMs int         `json:"client_timeout_ms,omitempty"`
 	IntervalMs      int         `json:"interval_ms,omitempty"` // timer mode: flush-interval
+	IdleMs          int         `json:"idle_ms,omitempty"`     // the handler runs idle this long before the first dispatch
 	Script          [][]int     `json:"script,omitempty"`      // per distinct body in arrival order: outcome per attempt (then 2xx)
 	Nop             []int       `json:"nop,omitempty"`         // the same for the start-up nop
 	D8              bool        `json:"d8,omitempty"`
@@ -216,7 +217,7 @@ func genFwd(r *hlib.Rand, d8 bool) input {
 		in.XHeaders = [][2]string{{"Region", "fixed"}} // different spelling: still split by region, value overridden
 	}
 	// fault script
-	switch r.Intn(6) {
+	switch r.Intn(7) {
 	case 0, 1: // no faults
 	case 2: // retries disabled: every failure is a drop
 		in.Script = genScript(r, 12, 1, 2, []int{k4xx, k5xx, kReset, kSlow5xx})
@@ -231,6 +232,19 @@ func genFwd(r *hlib.Rand, d8 bool) input {
 		in.Script = genScript(r, 12, 1, 4, []int{k5xx, kReset})
 		if r.Bool() {
 			in.Nop = []int{kReset}
+		}
+	case 6: // the handler is older than the retry window when its first requests fail once: a request's
+		// window is its own, so each of them must be retried (and then succeeds)
+		in.WindowMs = hlib.Pick(r, []int{150, 250, 400})
+		in.IdleMs = in.WindowMs + 100
+		for i, n := 0, r.Range(1, 4); i < n; i++ {
+			in.Script = append(in.Script, []int{hlib.Pick(r, []int{k4xx, k5xx, kReset, kSlow5xx})})
+		}
+		if len(in.Batches) > 8 {
+			in.Batches = in.Batches[:8]
+		}
+		if len(in.Flushes) > 1 {
+			in.Flushes = in.Flushes[:1]
 		}
 	case 5: // the client's timeout ends attempts; nothing ever succeeds, so no stall can turn a 2xx into a failure
 		in.ClientTimeoutMs = 80
@@ -253,7 +267,7 @@ func genFwd(r *hlib.Rand, d8 bool) input {
 		}
 		// no faults here: the stream is about isolation, and everything that will ever arrive must
 		// have arrived well before the harness stops waiting for the datapoints D8 loses
-		in.Script, in.Nop, in.WindowMs, in.ClientTimeoutMs = nil, nil, -1, 0
+		in.Script, in.Nop, in.WindowMs, in.ClientTimeoutMs, in.IdleMs = nil, nil, -1, 0, 0
 	}
 	return in
 }
